@@ -54,6 +54,7 @@ type Exec struct {
 	entryVals map[string]Val // param name -> entry value
 	heapified map[types.Object]bool
 	usedSpecs map[string]bool
+	heapTrace map[string]bool
 	trusted   map[string]bool
 	ord       map[string]int
 	frames    []*frame
@@ -62,6 +63,9 @@ type Exec struct {
 	global0   map[types.Object]*Term
 	notes     []string
 	pendingCaptured map[string]Val
+	pendingCapObjs  map[string]*types.Var // captured variables the callee literal assigns (in/out)
+	selfVar         *types.Var           // when verifying a literal: the variable it is bound to (recursion)
+	capturedSet     map[string]*types.Var
 	captured  []*types.Var // for function literals verified on their own: variables of the enclosing function
 	fieldAsg  map[types.Object]map[int]bool
 	scopes    []*frameScope
@@ -98,7 +102,7 @@ func (x *Exec) oblige(st *State, kind, label string, goal *Term, pos token.Pos, 
 	if label != "" {
 		name += ":" + label
 	}
-	o := &Obligation{Name: name, Func: x.key, Kind: kind, Hyps: append([]*Term(nil), st.pc...), Goal: goal, X: x, Src: src}
+	o := &Obligation{Name: name, Func: x.key, Kind: kind, Hyps: append([]*Term(nil), st.pc...), Goal: x.skolemGoal(goal), X: x, Src: src}
 	if pos.IsValid() {
 		o.Pos = x.eng.pos(pos)
 	}
@@ -147,6 +151,7 @@ func (e *Engine) verifyFunc(key string) (x *Exec, err error) {
 		return nil, fmt.Errorf("no contract for %s", key)
 	}
 	var captured []*types.Var
+	var selfVar *types.Var
 	if k := strings.Index(key, "#lit"); k >= 0 && fi == nil {
 		// a function literal inside key[:k], numbered in source order
 		parent := e.funcs[key[:k]]
@@ -176,6 +181,21 @@ func (e *Engine) verifyFunc(key string) (x *Exec, err error) {
 		obj := types.NewFunc(lit.Pos(), parent.Pkg.Types, parent.Obj.Name()+fmt.Sprintf("_lit%d", n), sig)
 		fi = &FuncInfo{Key: key, Pkg: parent.Pkg, Obj: obj,
 			Decl: &ast.FuncDecl{Name: ast.NewIdent(obj.Name()), Type: lit.Type, Body: lit.Body}}
+		// the variable this literal is assigned to (v = func...), for recursion
+		ast.Inspect(parent.Decl.Body, func(nd ast.Node) bool {
+			if as, ok := nd.(*ast.AssignStmt); ok && len(as.Lhs) == len(as.Rhs) {
+				for i, r := range as.Rhs {
+					if r == ast.Expr(lit) {
+						if id, ok := as.Lhs[i].(*ast.Ident); ok {
+							if v, ok := parent.Pkg.TypesInfo.ObjectOf(id).(*types.Var); ok {
+								selfVar = v
+							}
+						}
+					}
+				}
+			}
+			return true
+		})
 		// captured variables: declared in the parent, outside the literal
 		seen := map[types.Object]bool{}
 		ast.Inspect(lit.Body, func(nd ast.Node) bool {
@@ -198,6 +218,11 @@ func (e *Engine) verifyFunc(key string) (x *Exec, err error) {
 		heapified: map[types.Object]bool{}, usedSpecs: map[string]bool{}, trusted: map[string]bool{},
 		ord: map[string]int{}, closures: map[int64]*closure{}, global0: map[types.Object]*Term{}}
 	x.captured = captured
+	x.capturedSet = map[string]*types.Var{}
+	for _, v := range captured {
+		x.capturedSet[v.Name()] = v
+	}
+	x.selfVar = selfVar
 	defer func() {
 		if r := recover(); r != nil {
 			switch r := r.(type) {
@@ -366,6 +391,12 @@ func (x *Exec) doReturn(st *State, vals []Val, pos token.Pos) {
 				return Val{T: st.vars[rv], Ty: x.w.goTy(rv.Type(), x.model.BV)}, true
 			}
 		}
+		if cv, isCap := x.capturedSet[name]; isCap {
+			// captured variables denote their exit values in ensures (old(v): entry)
+			if t, have := st.vars[cv]; have && !x.heapified[cv] {
+				return Val{T: t, Ty: x.w.goTy(cv.Type(), x.model.BV)}, true
+			}
+		}
 		v, ok := x.entryVals[name]
 		return v, ok
 	}
@@ -418,6 +449,10 @@ func (x *Exec) doReturn(st *State, vals []Val, pos token.Pos) {
 		label := en.Label
 		if label == "" {
 			label = fmt.Sprintf("e%d", i+1)
+		}
+		if en.Assumed {
+			x.noteTrusted(fmt.Sprintf("ASSUMED postcondition of %s, exported to callers without proof: [%s] %s", x.key, label, en.Src))
+			continue
 		}
 		x.oblige(st, "post", fmt.Sprintf("%s@ret%d", label, rn), env.evalBool(en.E), pos, en.Src)
 	}
@@ -788,4 +823,74 @@ func (x *Exec) assumeDeepInv(st *State, t *Term, ty *Ty) {
 			}
 		}
 	}
+}
+
+// skolemGoal replaces universally quantified variables in positive
+// positions of a goal (top level, consequents of implications, conjuncts)
+// by fresh constants. Equivalent for validity; it makes applications of
+// recursive spec functions to those variables ground, so that they are
+// unfolded (the unfolding is syntactic and skips bound variables).
+func (x *Exec) skolemGoal(g *Term) *Term {
+	switch {
+	case g.Op == "forall" && len(g.Bound) > 0:
+		m := map[string]*Term{}
+		for _, bv := range g.Bound {
+			hint := bv.Name
+			if k := strings.Index(hint, "?"); k >= 0 {
+				hint = hint[:k]
+			}
+			m[bv.Name] = x.sym.Fresh("sk_"+hint, bv.Sort)
+		}
+		return x.skolemGoal(substTerm(g.Args[0], m))
+	case g.Op == "=>" && len(g.Args) == 2:
+		c := x.skolemGoal(g.Args[1])
+		if c == g.Args[1] {
+			return g
+		}
+		return mk("=>", SBool, g.Args[0], c)
+	case g.Op == "and":
+		changed := false
+		args := make([]*Term, len(g.Args))
+		for i, a := range g.Args {
+			args[i] = x.skolemGoal(a)
+			if args[i] != a {
+				changed = true
+			}
+		}
+		if !changed {
+			return g
+		}
+		return mk("and", SBool, args...)
+	}
+	return g
+}
+
+// substTerm replaces leaves named in m (bound variables) throughout t.
+func substTerm(t *Term, m map[string]*Term) *Term {
+	if len(t.Args) == 0 && len(t.Bound) == 0 {
+		if r, ok := m[t.Op]; ok {
+			return r
+		}
+		return t
+	}
+	changed := false
+	args := make([]*Term, len(t.Args))
+	for i, a := range t.Args {
+		args[i] = substTerm(a, m)
+		if args[i] != a {
+			changed = true
+		}
+	}
+	var pats []*Term
+	for _, p := range t.Pat {
+		q := substTerm(p, m)
+		if q != p {
+			changed = true
+		}
+		pats = append(pats, q)
+	}
+	if !changed {
+		return t
+	}
+	return &Term{Op: t.Op, Args: args, Sort: t.Sort, Bound: t.Bound, Pat: pats}
 }
